@@ -198,6 +198,11 @@ C02Scenario(r, s) ==
               \E q \in (p + 1)..n : ~started(q) /\
                    st[q] # (IF skipAt(p) \/ StepsOf(r, s)[q].def THEN "skipped" ELSE "undefined")
          THEN {"C02.rest"} ELSE {})
+   \* a step that skips its scenario (and passes) leaves the rest skipped: no later step function is called, also when
+   \* continue_after_failed_step is on and an earlier step had failed
+   \cup (IF \E a, b \in DOMAIN calls : a < b /\ Ev(r, calls[a]).outcome = "skip" /\ ~StepHookRaised(r, s, Ev(r, calls[a]).pos)
+                                        /\ ~LookupFails(r, s, Ev(r, calls[a]).pos)
+         THEN {"C02.skip_stops"} ELSE {})
    \* dry-run: no step function is ever called
    \cup (IF r.cfg.dry /\ StepEvs(r, s) # {} THEN {"C02.dry"} ELSE {})
 C02(r) == UNION {C02Scenario(r, s) : s \in Scens(r)}
